@@ -15,7 +15,8 @@ def classify(stage, where, flags, detail):
     d = detail if isinstance(detail, str) else str(detail)
 
     # float(x.min()) / float(x.max()) for integers beyond 2**53
-    if stage == "bound-not-tight" and "abs>2**53" in F and (F & INT_DTYPES) \
+    if stage == "bound-not-tight" and "abs>2**53" in F and (
+            (F & INT_DTYPES) or {"dtype:object", "inferred:integer"} <= F) \
             and where in ("column", "index", "index-level"):
         return "integer-bounds-computed-through-float"
 
@@ -34,7 +35,10 @@ def classify(stage, where, flags, detail):
         return "object-datetimes-with-null-min-max-compare-with-nan"
 
     # MultiIndex levels are looked up by name: two levels of one name
-    if where == "index" and "repeated-level-names" in F and (
+    # (the same index with distinct level names does not fail this stage)
+    if where == "index" and "repeated-level-names" in F and \
+            "distinct-names-variant-probed" in F and \
+            "distinct-names-variant-fails:" + stage not in F and (
             stage in ("returned-values-differ",
                       "validate-raises:TypeError",
                       "yaml-schema-accepts-what-original-rejected")
@@ -42,7 +46,8 @@ def classify(stage, where, flags, detail):
         return "multiindex-repeated-level-names-resolved-by-name"
 
     if stage == "validate-rejects:DATAFRAME_CHECK" and "complex" in F and \
-            "dtype:complex128" in F:
+            "imag-nonzero" in F and "dtype:complex128" in F and \
+            "than_or_equal_to(" in d:
         return "complex-bounds-computed-through-float"
 
     if stage == "validate-rejects:DATATYPE_COERCION" and \
@@ -60,19 +65,21 @@ def classify(stage, where, flags, detail):
 
 
 # quick-tier floors, about 1/4 of the unchanged tree with seed 0
-# (thorough: x10)
+# (thorough, 24000 random cases: x20)
 FLOORS_QUICK = {
     "monitor:infer": 300, "monitor:validate": 300,
     "monitor:returned-values": 260, "monitor:bound-tight": 900,
     "monitor:yaml-roundtrip": 180, "monitor:yaml-verdict": 180,
-    "held": 200, "kind:series": 80, "kind:frame": 230,
+    "held": 250, "kind:series": 80, "kind:frame": 230,
     "mode:plain": 350, "mode:some-null": 55, "mode:all-null": 75,
     "mode:empty": 75, "index:range": 140, "index:single": 20,
     "index:single:unnamed": 25, "index:multi": 25,
-    "index:multi:unnamed": 25, "index:multi:repeated-names": 25,
+    "index:multi:unnamed": 60, "index:multi:repeated-names": 25,
     "class:int64-big": 8, "class:uint64": 7, "class:Int64-big": 8,
     "class:float64-inf": 8, "class:float64-negzero": 7,
     "class:float64-subnormal": 8, "class:datetime-subsecond": 10,
     "class:datetime-tz-utc": 10, "class:cat-str": 30, "class:str": 30,
     "class:timedelta": 30, "class:obj-int-str": 8, "class:bool": 25,
+    "class:obj-bigint": 8, "class:obj-int-big": 10, "class:obj-timestamp": 10,
+    "class:complex128": 9, "class:datetime-tz-berlin": 10,
 }
